@@ -63,9 +63,11 @@ type Pool struct {
 	Floats  []float64
 	Inner   [][2]int64
 	Malform []string
-	Rows    []*Row   // the same longitude at latitudes 0.5/26/35/43/60/75/-34/-60: voxels of one zoom in different latitude rows
-	Edge    []string // extended IDs on the edges of the grid (x, y in {0, 2^h-1, 2^h/2}) at mixed zooms 0..35: any shift wraps around
-	EdgeS   []string // voxels with h = v on the edges of the grid, in spatial-ID notation
+	Rows    []*Row          // the same longitude at latitudes 0.5/26/35/43/60/75/-34/-60: voxels of one zoom in different latitude rows
+	BPts    []*object.Point // boundary values: lon exactly +180 / -180 / 0, lat exactly +-85.0511287798 / 0, alt 0 / -0 / +-2^25, shared by several entries
+	BNear   []*object.Point // BNear[i]: a point a few metres from BPts[i] (short lines that start on a boundary value)
+	Edge    []string        // extended IDs on the edges of the grid (x, y in {0, 2^h-1, 2^h/2}) at mixed zooms 0..35: any shift wraps around
+	EdgeS   []string        // voxels with h = v on the edges of the grid, in spatial-ID notation
 }
 
 // Row: one latitude. Mercator voxels get narrower towards the poles, so anything measured in metres differs per row at equal zoom.
@@ -216,6 +218,24 @@ func NewPool(seed int64) *Pool {
 		p.Regs = append(p.Regs, newRegion(r, places[pl[i]], zooms[zs[i]]))
 	}
 	p.Rows = newRows(r)
+	const maxLat = 85.0511287798
+	for _, b := range [][3]float64{{180, 10 + r.Float64()*50, 5}, {-180, -20 - r.Float64()*40, 5}, {180, 0, 0}, {-180, maxLat, 0}, {180, -maxLat, math.Copysign(0, -1)},
+		{0, 0, 0}, {0, maxLat, 33554432}, {12.5, -maxLat, -33554432}, {139.7, 35.6, math.Copysign(0, -1)}, {-0.0, 51.5, 33554431.5}, {179.99999999, 35, 1}, {-179.99999999, 35, 1}} {
+		pt, err := object.NewPoint(b[0], b[1], b[2])
+		must(err)
+		p.BPts = append(p.BPts, pt)
+		dl, dt := -0.00008, -0.00005
+		if b[0] < 0 {
+			dl = 0.00008
+		}
+		if b[1] < 0 {
+			dt = 0.00005
+		}
+		q, err := object.NewPoint(b[0]+dl, b[1]+dt, b[2])
+		must(err)
+		p.BNear = append(p.BNear, q)
+	}
+	p.BPts, p.BNear = spare(p.BPts, 3), spare(p.BNear, 3)
 	p.QVs = []*object.QuadkeyAndVerticalID{
 		object.NewQuadkeyAndVerticalID(6, 2914, 7, 74, 500, 0),
 		object.NewQuadkeyAndVerticalID(6, 2882, 25, 0, 0, 0),
@@ -276,7 +296,7 @@ func NewPool(seed int64) *Pool {
 // Windows handed to the calls keep spare capacity behind them, so the rendering covers the full capacity of every slice.
 func (p *Pool) Snapshot() string {
 	full := func(s []string) []string { return s[:cap(s)] }
-	all := []interface{}{p.QVs[:cap(p.QVs)], p.Tiles[:cap(p.Tiles)], p.FQV, p.FQA, p.P3s[:cap(p.P3s)], p.Vecs[:cap(p.Vecs)],
+	all := []interface{}{p.BPts[:cap(p.BPts)], p.BNear[:cap(p.BNear)], p.QVs[:cap(p.QVs)], p.Tiles[:cap(p.Tiles)], p.FQV, p.FQA, p.P3s[:cap(p.P3s)], p.Vecs[:cap(p.Vecs)],
 		p.Ints[:cap(p.Ints)], p.Ints2[:cap(p.Ints2)], p.Floats[:cap(p.Floats)], p.Inner[:cap(p.Inner)], full(p.Malform), full(p.Edge), full(p.EdgeS)}
 	for _, row := range p.Rows {
 		all = append(all, row.P, row.Q, row.EIDs, row.SIDs)
@@ -723,6 +743,35 @@ var Catalogue = []Call{
 		a, e := transform.ConvertExtendedSpatialIDsToQuadkeysAndVerticalIDs([]string{pick(r, p.Rows).EIDs[zi]}, RowZooms[zi], vz, hi, lo)
 		return rs(a, errStr(e))
 	}},
+	// ---- boundary values shared by several entries of one mix (special-case code for lon = +-180, lat = +-85.0511287798, alt 0 / -0 / +-2^25):
+	// the same shared points go to OnPoints, OnLine and the projection, so a write into one of them shows in the others and in the snapshot
+	{"shape.GetExtendedSpatialIdsOnPoints/boundary", false, func(p *Pool, r, k *rand.Rand) interface{} {
+		a, e := shape.GetExtendedSpatialIdsOnPoints(window(r, p.BPts, 6), int64(k.Intn(36)), int64(k.Intn(36)))
+		return rs(a, errStr(e))
+	}},
+	{"shape.GetSpatialIdsOnPoints/boundary", false, func(p *Pool, r, k *rand.Rand) interface{} {
+		a, e := shape.GetSpatialIdsOnPoints(window(r, p.BPts, 6), int64(k.Intn(36)))
+		return rs(a, errStr(e))
+	}},
+	{"shape.ConvertPointListToProjectedPointList/boundary", false, func(p *Pool, r, k *rand.Rand) interface{} {
+		a, e := shape.ConvertPointListToProjectedPointList(window(r, p.BPts, 6), 3857)
+		return rs(a, errStr(e))
+	}},
+	{"shape.GetExtendedSpatialIdsOnLine/boundary", true, func(p *Pool, r, k *rand.Rand) interface{} {
+		i := r.Intn(len(p.BPts))
+		z := int64(17 + k.Intn(5))
+		a, e := shape.GetExtendedSpatialIdsOnLine(p.BPts[i], p.BNear[i], z, z-int64(k.Intn(2)))
+		return rs(a, errStr(e))
+	}},
+	{"shape.GetSpatialIdsOnLine/boundary", true, func(p *Pool, r, k *rand.Rand) interface{} {
+		i := r.Intn(len(p.BPts))
+		a, e := shape.GetSpatialIdsOnLine(p.BNear[i], p.BPts[i], int64(17+k.Intn(5)))
+		return rs(a, errStr(e))
+	}},
+	{"object.Point getters/boundary", false, func(p *Pool, r, k *rand.Rand) interface{} {
+		q := pick(r, p.BPts)
+		return rs(q.Lon(), q.Lat(), q.Alt())
+	}},
 	// ---- detector
 	{"detector.CheckSpatialIdsOverlap", false, func(p *Pool, r, k *rand.Rand) interface{} {
 		g := p.reg(r)
@@ -1009,7 +1058,7 @@ func weight(name string) int {
 	switch {
 	case strings.Contains(name, "/wrap"):
 		return 8
-	case strings.HasSuffix(name, "/chain"), strings.HasSuffix(name, "/rows"):
+	case strings.HasSuffix(name, "/chain"), strings.HasSuffix(name, "/rows"), strings.HasSuffix(name, "/boundary"):
 		return 3
 	case strings.HasSuffix(name, "/edge"):
 		return 4
